@@ -313,10 +313,11 @@ func EmitBatch(progs []M) string {
 
 // EmitUncaught prints one program whose main is called at top level without a handler, so that an
 // error propagates out of the program (C32: stack trace report).
-func EmitUncaught(p M) string {
+func EmitUncaught(p M) (src string, callLine int) {
 	e := &emitter{}
 	e.raw(Prelude)
 	e.defs(p)
+	callLine = e.line + 1
 	e.w(0, "main_()")
-	return e.sb.String()
+	return e.sb.String(), callLine
 }
